@@ -156,7 +156,11 @@ func (b *c14b) markerStmt(file, fn, dvar string, indent int, dead bool) {
 		m := b.meta.Markers[id]
 		m.Inline = true
 		b.meta.Markers[id] = m
-		if b.r.Chance(1, 2) {
+		if b.r.Chance(1, 3) {
+			// no constant and no global inside: the instruction bytes of all uses are equal
+			// even before constants are de-duplicated
+			b.emit(file, fn, b.v()+" := func(f, k, d) { return f(k, d) }(mk.mark, "+itoa(id)+", "+dvar+")", indent)
+		} else if b.r.Chance(1, 2) {
 			b.emit(file, fn, b.v()+" := func(k, d) { return mk.mark(k, d) }("+itoa(id)+", "+dvar+")", indent)
 		} else {
 			b.emit(file, fn, b.v()+" := func(k, d) { x := [k, d]; return mk.mark(x[0], x[1]) + 1 }("+itoa(id)+", "+dvar+")", indent)
